@@ -41,7 +41,7 @@ sim("C10", "oracle: per-key Wing-Gong linearizability search over acknowledged w
     "stateful scenario generation, linearizability checker (per-key Wing-Gong search) as oracle")
 sim("C11", "oracle: every successful read under the linearizable policy must fit the per-key linearizability search together with the writes; scenarios biased to isolated leaders, apply lag, late acknowledgements.",
     "stateful scenario generation, linearizability checker as oracle")
-sim("C12", "oracle: (a) with the simulator's perfect clock a LeaseRead answered by a node after another node established a higher term is a violation, The configuration clause of C12 (validation rejects every lease window not shorter than the minimum election timeout, for every read configuration) is decided by an auxiliary engine (evidence C12.config.json): generated numeric + read-policy configurations against RaftConfig::validate with an exact u128 oracle.",
+sim("C12", "oracle: with the simulator's perfect clock a LeaseRead answered by a node after another node established a higher term is a violation (whether lease reads also fit a linearization is recorded only). The configuration clause of C12 (validation rejects every lease window not shorter than the minimum election timeout, for every read configuration) is decided by an auxiliary engine (evidence C12.config.json): generated numeric + read-policy configurations against RaftConfig::validate with an exact u128 oracle.",
     "stateful scenario generation under a virtual clock, deposed-leader + linearizability oracles",
     "Only the Raft-loop lease path is driven; the lock-free fast-path readers use the same ReadLease object but their thread-level races are out of reach.")
 sim("C14", "oracle: a write answered with a definite rejection (not leader / backpressure / invalid) is never found in any node's committed log or applied state.",
